@@ -8,7 +8,8 @@ Open Scope Z_scope.
 Definition zlen {A} (l : list A) : Z := Z.of_nat (length l).
 Definition enc_dir (d : dirs) : Z := match d with Di => 0 | Do => 1 | Doe => 2 | Dio => 3 end.
 Definition enc_err (e : err) : Z :=
-  match e with EResource => 1 | EType => 2 | EValue => 3 | EName => 4 | EHang => 5 end.
+  match e with EResource RConflict => 1 | EType => 2 | EValue => 3 | EName => 4 | EHang => 5
+  | EResource RNoSuch => 6 | EResource RAgain => 7 end.
 Definition enc_path (p : path) : list Z := [fst (fst p); snd (fst p); zlen (snd p)] ++ snd p.
 Definition enc_alist (a : alist) : list Z := zlen a :: concat (map (fun kv => [fst kv; snd kv]) a).
 Definition enc_zl (l : list Z) : list Z := zlen l :: l.
